@@ -961,7 +961,7 @@ def gen_world(rng, tier, focus='C07'):
         sources[-1]['base'] = sorted(rng.sample(sorted(basemibs.ALL_BASE), rng.randrange(1, len(basemibs.ALL_BASE))))
     scn['sources'] = sources
     # searchers
-    nse = rng.choice([0, 0, 1, 1, 2, 3]) if focus != 'C10' else rng.choice([1, 2, 2, 3])
+    nse = rng.choice([0, 0, 1, 1, 2, 3]) if focus != 'C10' else rng.choice([0, 1, 2, 2, 3])
     searchers = []
     allnames = names + list(basemibs.BASE_NAMES)
     for i in range(nse):
